@@ -535,3 +535,75 @@ func has55799(b []byte, off int) bool {
 	}
 	return false
 }
+
+// ---------------------------------------------------------------- C04: the alg a verifier ran under is the alg item on the wire
+//
+// wireAlg reads the protected bucket of a COSE_Sign1 (tag optional) as written and reports the
+// `alg` entry: "absent" (no key that is the integer 1, under any head width), "int" with its value
+// (key the plain integer 1, value a plain integer), or "other" (a text alg, a tagged key or value,
+// anything else).  It knows nothing of the library or of the Lean model.
+func wireAlg(data []byte) (kind string, alg int64) {
+	off := 0
+	if len(data) > 0 && data[0]>>5 == 6 {
+		_, _, p, ok := rdHead(data, 0)
+		if !ok {
+			return "other", 0
+		}
+		off = p
+	}
+	major, _, p, ok := rdHead(data, off)
+	if !ok || major != 4 {
+		return "other", 0
+	}
+	bm, bn, bp, ok := rdHead(data, p)
+	if !ok || bm != 2 || uint64(len(data)-bp) < bn {
+		return "other", 0
+	}
+	c := data[bp : bp+int(bn)]
+	if len(c) == 0 {
+		return "absent", 0
+	}
+	mm, mn, q, ok := rdHead(c, 0)
+	if !ok || mm != 5 {
+		return "other", 0
+	}
+	kind = "absent"
+	for i := uint64(0); i < mn; i++ {
+		key := q
+		v := itemEnd(c, q)
+		if v < 0 {
+			return "other", 0
+		}
+		end := itemEnd(c, v)
+		if end < 0 {
+			return "other", 0
+		}
+		km, kn, _, _ := rdHead(c, key)
+		// a key that is 1 under a tag (whatever the tag) makes the entry "other"
+		k2 := key
+		tagged := false
+		for km == 6 {
+			tagged = true
+			_, _, k2, _ = rdHead(c, k2)
+			km, kn, _, ok = rdHead(c, k2)
+			if !ok {
+				return "other", 0
+			}
+		}
+		if km == 0 && kn == 1 {
+			vm, vn, _, vok := rdHead(c, v)
+			switch {
+			case tagged || !vok:
+				return "other", 0
+			case vm == 0 && vn < 1<<63:
+				kind, alg = "int", int64(vn)
+			case vm == 1 && vn < 1<<63:
+				kind, alg = "int", -1-int64(vn)
+			default:
+				return "other", 0
+			}
+		}
+		q = end
+	}
+	return kind, alg
+}
